@@ -3,6 +3,7 @@
 // assignment (incl. across storage classes), deque erase in the middle; instance counting and payload check.
 #include <boost/msm/backmp11/detail/basic_polymorphic.hpp>
 #include <cstdio>
+#include <cstdint>
 #include <string>
 #include <deque>
 #include <vector>
@@ -33,6 +34,15 @@ template<class A, class B> void mix(const char* name) {
   bool balanced = true; for (int k = 0; k < 8; ++k) balanced = balanced && live[k] == 0 && made[k] == died[k];
   report(name, ok && balanced, "C20,C15", std::string("values_ok=") + (ok ? "1" : "0") + " balanced=" + (balanced ? "1" : "0"));
 }
+// over-aligned payloads (C20 "regardless of ... alignment"): wherever the object is stored, its address must suit alignof(T)
+template<int A> struct alignas(A) Al : Base { long v; Al() : v(A) {} bool ok() const override { return reinterpret_cast<uintptr_t>(this) % A == 0 && v == A; } int kind() const override { return 100 + A; } };
+template<int A> void aligned(const char* name) {
+  bool ok = true;
+  { std::deque<P> d; for (int i = 0; i < 5; ++i) d.push_back(P::make<Al<A>>());
+    for (auto& x : d) ok = ok && x->ok();
+    std::deque<P> c(d); d.erase(d.begin() + 1); for (auto& x : c) ok = ok && x->ok(); for (auto& x : d) ok = ok && x->ok(); }
+  report(name, ok, "C20", std::string("every stored object sits at an address that is a multiple of its alignment: ") + (ok ? "yes" : "NO"));
+}
 int main(int argc, char** argv) {
   if (argc > 1) g_only = argv[1];
   mix<Ev<0,1,true>, Ev<1,200,true>>("inline-vs-heap");
@@ -41,5 +51,6 @@ int main(int argc, char** argv) {
   mix<Triv, Ev<1,200,true>>("trivial-vs-heap");
   mix<Ev<4,24,true>, Triv>("inline-vs-trivial");
   mix<Triv, Triv>("trivial-vs-trivial");
+  aligned<8>("aligned-8"); aligned<16>("aligned-16"); aligned<32>("aligned-32");
   printf("DONE %d scenarios %d failed\n", g_scn, g_fail); return 0;
 }
